@@ -218,7 +218,7 @@ PROPS = {
                       "what the pool owes by paid + fee; racing withdrawals interleaved with any other requests remove "
                       "from the ledger exactly what each settled. Tied to the code by in-kernel evaluation on "
                       "accrual/withdrawal histories of the real PaymentService (settle handler recording amounts, "
-                      "failing on scripted attempts), both drivers, and by racing withdrawals of one wallet.",
+                      "failing on scripted attempts), both drivers, and by racing withdrawals of one wallet. Racing withdrawals: the keyed-lock model (Locks.v) proves mutual exclusion for a lock whose map entry is never removed, for any number of racing requests and any schedule, refutes the entry-removing variant with a chain of three, and the shape of Withdraw's lock is a fact regenerated from the source; staged chains of 3-5 overlapping withdrawals are forced on the real service through a settlement gate.",
         "level_note": "Trusted: Coq kernel; the settle handler and deposit proxy are harness code standing for the "
                       "contract (settlement sets the on-chain balance to the new balance 0); withdrawals are serialized "
                       "by the service mutex (Go sync.Mutex).",
@@ -226,7 +226,7 @@ PROPS = {
         "rule": "accrual and withdrawal histories (6-17 steps; accruals of 1..20000 around fee 2500 / minimum 5000 / "
                 "minimum 100 / fee 10, deposits, settlement failing on a quarter of attempts, immediate repeats, "
                 "settlement disabled in a tenth), both drivers; every tenth case 2-6 racing withdrawals of one wallet",
-        "trusted": [],
+        "trusted": ["Locks model (keyed lock bookkeeping): sync.Mutex semantics and the Go scheduler are trusted; the lock facts are syntactic recognisers of the pinned shapes (harness/facts_locks.go)"],
     },
     "C04": {
         "harness": "c04",
@@ -478,7 +478,7 @@ PROPS = {
                       "by scripted start/stop/wait/pool-failure sequences on the real Agent (25 ms interval) against a "
                       "counting fake pool, with the number of live loops estimated from the keep-alive rate, and by "
                       "running the built agent binary with --update-interval at 1s, 5s, 5.001s, 30s, 60s, 119.9s, "
-                      "120s, 121s, 1h.",
+                      "120s, 121s, 1h. Overlapping Start calls (Claim.v): test-and-set claim under the agent's mutex (fact regenerated from agent/agent.go), registration outside it: never more than one loop for any interleaving of any number of Start/Stop calls and registration failures; the split test/set shape is refuted. Uncollected results of earlier runs no longer matter: theorem for every number of such runs (D27).",
         "level_note": "Trusted: Coq kernel; the keep-alive rate measured over 12 intervals classifies 0/1/2/3 loops "
                       "(ambiguous measurements are repeated, then dropped); Stop/Wait are issued only when the model "
                       "says they are enabled (Stop blocks forever with no loop running, which the property does not cover).",
@@ -486,7 +486,7 @@ PROPS = {
                      "correspondence with the real Agent and the built binary",
         "rule": "24 sequences of 5-13 operations (start ok / failing at connect / failing at first update, stop, pool "
                 "fails a keep-alive, wait, rate measurement), 6 at a time; 1 command-line case with 9 intervals",
-        "trusted": [],
+        "trusted": ["Claim model: Start as claim / register / run steps; the Start shape facts are syntactic (harness/facts_claim.go)", "after fix fb90846 an accepted Start drops uncollected results of earlier runs; the Life model follows (LStart empties the queue)"],
     },
     "C14": {
         "harness": "c14",
@@ -541,7 +541,7 @@ PROPS = {
                       "over sockets (Remote.Serve: a panic in a handler goroutine kills it) and HTTP: type-directed "
                       "hostile requests for every documented method, unsolicited/odd replies, malformed byte streams, "
                       "hostile replies to the pool's own vipnode_whitelist calls, correctly signed requests with odd "
-                      "contents; after hostile messages the same and a second connection must still answer a probe.",
+                      "contents; after hostile messages the same and a second connection must still answer a probe. No wedge: handlers sharing the pool mutex (Wedge.v): if no handler waits for a remote party while holding it - a fact regenerated from pool/service.go - then in every reachable state a handler that is not itself waiting performs its next step after finitely many steps of others, whatever replies are withheld for ever; waiting under the mutex is refuted (every schedule leaves the bystander stuck). Exercised by hosts that read the pool's calls and never answer.",
         "level_note": "Trusted: Coq kernel; the AST-based site extractor (syntactic: map indexes and len()-sized makes are "
                       "excluded); the reviewed justifications of the listed sites are by inspection, the signature and "
                       "EnodeID ones are also theorems (C04/C02); success and internal-error replies are one class in the "
@@ -552,7 +552,7 @@ PROPS = {
                 "type-directed with odd strings/ids/numbers/objects and wrong kinds/arity; 15 malformed byte streams "
                 "over socket and HTTP; 1 signed session: 8 hostile replies to the pool's call-backs, 8 correctly signed "
                 "odd requests, an account query for a wallet-style node id",
-        "trusted": [],
+        "trusted": ["Wedge model: handlers as step lists sharing one mutex; sync.Mutex, channels and the Go scheduler are trusted; pool_mutex_spans / pool_mutex_waits_inside are syntactic (harness/facts_spans.go: receives, sends, select, .Call, .Wait, .Sleep inside Lock...Unlock stretches of pool/service.go; code under `go` excluded)"],
     },
     "C10": {
         "harness": "c10",
@@ -580,7 +580,7 @@ PROPS = {
                       "balance they return and re-reading it after later writes, compared in-kernel with the model. "
                       "PARTIAL: absence of data races is runtime behaviour no Gallina model exhibits; it is searched "
                       "for with the race detector on the concurrent workloads (memory/badger keep-alives, balance "
-                      "updates, withdrawals, registry connect/close/peer, Remote calls).",
+                      "updates, withdrawals, registry connect/close/peer, Remote calls). The per-node update lock: keyed-lock model (Locks.v) with mutual exclusion and progress theorems, the entry-removing variant refuted (and shown indistinguishable with only two requests), lock shape facts regenerated from pool/service.go; pool-level snapshot histories; chains of three overlapping keep-alives forced through a gate store.",
         "level_note": "Trusted: Coq kernel; Go's sync.Mutex and memory model; badger's snapshot isolation and conflict "
                       "detection; the AST-based lock/transaction shape extractors; the race detector only sees the "
                       "schedules that happen to run.",
@@ -590,6 +590,6 @@ PROPS = {
         "rule": "120 snapshot histories (8-32 adds/gets over a trial node, a linked node and its wallet, multi-word "
                 "amounts), both drivers; per driver one forced same-node interleaving and one 12x40 concurrent "
                 "unit-credit run; one race-detector run of 10 concurrent workloads",
-        "trusted": [],
+        "trusted": ["Locks model (keyed lock bookkeeping): sync.Mutex semantics and the Go scheduler are trusted; the lock facts are syntactic recognisers of the pinned shapes (harness/facts_locks.go)"],
     },
 }
